@@ -31,6 +31,10 @@ class C02(Prop):
                    "language (covered by the comparison with Spec/Regex.v only)",
                    "inputs <= 64 bytes: the 4096-byte window is never reached in generated cases"]
 
+    def translators(self, ctx):
+        from translators import consts
+        return consts.run(core.REPO, core.VERIF)
+
     # ---------------------------------------------------------------- generation
     def gen_tokens(self, rng, depth, in_alt, maxlen):
         n = rng.range(1, maxlen)
